@@ -9,6 +9,7 @@ MB offsets near the 44-bit limit, VHD near the 2 TiB sector limit, VDI 2 TiB, HD
 offsets are compared with the location-coded expectation (A) and the I/O logs are validated by TLC (B)."""
 from __future__ import annotations
 
+import os
 import random
 import struct
 
@@ -203,6 +204,147 @@ def giant_vmdk_hosted(rng, dense):
     return Giant("vmdk-hosted", [vf], lambda: VMDK(vf), cap * 512, probes, meta, note={"capacity_sectors": cap, "gd_entries": ngd})
 
 
+# ------------------------------------------------------------------------------------------------ VMDK through descriptors (real files)
+class PathCounter:
+    """Counts every read on files opened through pathlib.Path.open (how the library opens what a descriptor names)."""
+
+    def __init__(self):
+        self.io_log, self.bytes_requested, self.opens = [], 0, 0
+
+    def reset_log(self):
+        self.io_log, self.bytes_requested, self.opens = [], 0, 0
+
+    def seek(self, o):
+        pass
+
+    def patched(self):
+        import contextlib
+        import pathlib
+        counter = self
+        orig = pathlib.Path.open
+
+        class Counting:
+            def __init__(self, fh):
+                self._fh = fh
+
+            def read(self, n=-1):
+                d = self._fh.read(n)
+                k = len(d) if n is None or n < 0 else n
+                counter.io_log.append((0, k))
+                counter.bytes_requested += k
+                return d
+
+            def readinto(self, b):
+                k = self._fh.readinto(b)
+                counter.io_log.append((0, len(b)))
+                counter.bytes_requested += len(b)
+                return k
+
+            def __getattr__(self, a):
+                return getattr(self._fh, a)
+
+        def opener(self_, mode="r", *a, **kw):
+            fh = orig(self_, mode, *a, **kw)
+            if "b" in mode and "w" not in mode and "+" not in mode:
+                counter.opens += 1
+                return Counting(fh)
+            return fh
+
+        @contextlib.contextmanager
+        def cm():
+            pathlib.Path.open = opener
+            try:
+                yield
+            finally:
+                pathlib.Path.open = orig
+        return cm()
+
+
+def _hosted_extent(cap, grain, gtes, place, fid):
+    """A hosted sparse extent of `cap` sectors with grains {grain index: sector position}; -> (VirtualFile, metadata bytes)."""
+    ngd = -(-cap // (gtes * grain))
+    gd_off = 8
+    gd_sectors = -(-(ngd * 4) // 512)
+    gt0 = gd_off + gd_sectors
+    tabs = sorted({g // gtes for g in place})
+    tpos = {t: gt0 + k * (gtes * 4 // 512) for k, t in enumerate(tabs)}
+
+    def gd_gen(off, n):
+        out = bytearray(n)
+        for t, sct in tpos.items():
+            b = struct.pack("<I", sct)
+            for j in range(4):
+                q = t * 4 + j - off
+                if 0 <= q < n:
+                    out[q] = b[j]
+        return bytes(out)
+    ext = [(gd_off * 512, ngd * 4, "fn", gd_gen)]
+    for t, sct in tpos.items():
+        tab = bytearray(gtes * 4)
+        for g, p in place.items():
+            if g // gtes == t:
+                tab[(g % gtes) * 4:(g % gtes) * 4 + 4] = struct.pack("<I", p)
+        ext.append((sct * 512, gtes * 4, "bytes", bytes(tab)))
+    for g, p in place.items():
+        ext.append((p * 512, grain * 512, "pat", fid))
+    ext.append((0, 512, "bytes", enc_vmdk.hosted_header(cap, grain, 0, 0, gtes, 0, gd_off, gd_off, 5)))
+    return VirtualFile(max(e[0] + e[1] for e in ext), ext, fid=fid), 512 + ngd * 4 + len(tabs) * gtes * 4
+
+
+def giant_vmdk_descriptor(rng, dense):
+    """A delta disk and its parent, each a descriptor naming 8 hosted sparse extents of 2 TiB (real sparse files in a scratch
+    directory; reads counted through pathlib.Path.open): opening maps every extent of both layers once."""
+    import shutil
+    import tempfile
+    from pathlib import Path
+    from dissect.hypervisor.disk.vmdk import VMDK
+    grain, gtes, next_ = 128, 512, 8
+    cap = 1 << 32                                  # sectors per extent (2 TiB)
+    ng = cap // grain
+    root = tempfile.mkdtemp(prefix="verif-c13d-")
+    counter = PathCounter()
+    meta = 0
+    place = {}
+    for layer, pcid, hint in (("parent", "ffffffff", None), ("delta", "0badcafe", "parent.vmdk")):
+        lines = []
+        for k in range(next_):
+            fid = (0 if layer == "delta" else 20) + k
+            want = {0, 3, gtes, ng // 2, ng - 1} if layer == "parent" else {3, ng // 2 + gtes}
+            if dense:
+                want |= {g for g in (rng.randrange(ng) for _ in range(40)) if g not in (ng // 3, 0, gtes, ng // 2, ng - 1, 3, ng // 2 + gtes)}
+            base = 4096 + rng.randrange(0, 64) * grain
+            pl = {g: base + 2 * j * grain + (1 << 20) for j, g in enumerate(sorted(want))}
+            vf, m = _hosted_extent(cap, grain, gtes, pl, fid)
+            fn = f"{layer}-s{k + 1:03d}.vmdk"
+            vf.materialise(os.path.join(root, fn))
+            meta += m
+            place[(layer, k)] = pl
+            lines.append(f'RW {cap} SPARSE "{fn}"')
+        text = enc_vmdk.descriptor_text(lines, create_type="twoGbMaxExtentSparse", parent_cid=pcid, parent_hint=hint, cid="0badcafe" if layer == "parent" else "12345678")
+        with open(os.path.join(root, layer + ".vmdk"), "w") as f:
+            f.write(text)
+        meta += len(text)
+
+    def src(k, g, a, n):
+        if g in place[("delta", k)]:
+            return patterns.pat(k, place[("delta", k)][g] * 512 + a, n)
+        if g in place[("parent", k)]:
+            return patterns.pat(20 + k, place[("parent", k)][g] * 512 + a, n)
+        return bytes(n)
+    probes = []
+    for k in rng.sample(range(next_), 4):
+        for g in rng.sample([0, 3, gtes, ng // 2, ng // 2 + gtes, ng - 1, ng // 3], 2):
+            a = rng.choice([0, 512, 65536 - 4096])
+            probes.append(((k * cap + g * grain) * 512 + a, 4096, src(k, g, a, 4096)))
+
+    def opener():
+        with counter.patched():
+            return VMDK(Path(root) / "delta.vmdk")
+    g = Giant("vmdk-descriptor", [counter], opener, next_ * cap * 512, probes, meta, c0=256 << 10, note={"extents_per_layer": next_, "layers": 2, "capacity_sectors": cap})
+    g.cleanup = lambda: shutil.rmtree(root, ignore_errors=True)
+    return g
+
+
 # ------------------------------------------------------------------------------------------------ VHDX / VHD / VDI / HDS
 def giant_vhdx(rng, dense, sector=512):
     from dissect.hypervisor.disk.vhdx import VHDX
@@ -217,11 +359,14 @@ def giant_vhdx(rng, dense, sector=512):
     for k, b in enumerate(picks):
         pos[b] = top + 2 * (len(picks) - k)
     blocks = [(enc_vhdx.ST_FULL, pos[b]) if b in pos else (rng.choice([0, 2, 3]), None) for b in range(nb)]
-    vf, info = enc_vhdx.build(blocks, block_size=bs, sector_size=sector, disk_size=nb * bs)
+    # regions far into the file too (the BAT is relocated towards the end when a disk is expanded): metadata beyond 4 GiB,
+    # BAT beyond 32 GiB, payload after it
+    vf, info = enc_vhdx.build(blocks, block_size=bs, sector_size=sector, disk_size=nb * bs, meta_mb=(5 << 10) + 3, bat_mb=(36 << 10) + 1)
     probes = []
     for b in rng.sample(near, 5):
         o = b * bs + rng.choice([0, sector, bs - 8192])
         probes.append((o, 4096, patterns.pat(0, info["data_base"] + pos[b] * bs + (o - b * bs), 4096)))
+    assert info["data_base"] + (max(pos.values()) + 1) * bs < (1 << 44) * (1 << 20)
     meta = 5 * 65536 + (1 << 20) + info["nent"] * 8
     return Giant(f"vhdx-s{sector}", [vf], lambda: VHDX(vf), nb * bs, probes, meta, c0=2 << 20, note={"blocks": nb, "bat_entries": info["nent"], "sector": sector})
 
@@ -345,7 +490,7 @@ def giant_vhdx_4k(rng, dense):
     return giant_vhdx(rng, dense, sector=4096)
 
 
-BUILDERS = [giant_qcow2, giant_qcow2_2m, giant_vmdk_se, giant_vmdk_hosted, giant_vhdx, giant_vhdx_4k, giant_vhd, giant_vdi, giant_hds, giant_hds_v1]
+BUILDERS = [giant_qcow2, giant_qcow2_2m, giant_vmdk_se, giant_vmdk_hosted, giant_vmdk_descriptor, giant_vhdx, giant_vhdx_4k, giant_vhd, giant_vdi, giant_hds, giant_hds_v1]
 
 
 def measure(g):
@@ -388,12 +533,18 @@ def run(ctx):
         for mk in BUILDERS:
             tid += 1
             seed = ctx.seed * 131 + tid
+            gs = gd = None
             try:
                 gs = mk(random.Random(seed), False)
                 gd = mk(random.Random(seed), True)
                 ev_s, tot_s, req, bad_s = measure(gs)
                 ev_d, tot_d, _, bad_d = measure(gd)
+                for g_ in (gs, gd):
+                    getattr(g_, "cleanup", lambda: None)()
             except Exception as e:  # noqa: BLE001
+                for g_ in (gs, gd):
+                    if g_ is not None:
+                        getattr(g_, "cleanup", lambda: None)()
                 import traceback
                 ctx.violation({"format": mk.__name__, "fail": "raised", "exc": type(e).__name__}, {"error": repr(e)[:300], "tb": traceback.format_exc()[-1500:]})
                 continue
